@@ -9,6 +9,14 @@ CTE_NOTE = ('Trusted: CPython, the ChoiceSource seam (every random decision of /
             'departures from every base schedule than the completed deviation bound.')
 
 CHECKS = {
+ 'C02': dict(engine='CTE+javac', category='model_checking', design_ref='5 C02',
+   text='Every distinct Java text of the generated and of the erased program of every explored execution (Java configs, '
+        'several switch vectors) is compiled alone by the real javac 17 (-nowarn) and then again in batches of 2, 8 and 32 at '
+        'different positions, with passing and with failing neighbours; every per-file verdict in a batch must equal the '
+        'verdict alone. The Java adapter is run on the real command-line text of every failing batch and must blame exactly '
+        'the files the structured diagnostics blame (C14 binding).',
+   note=CTE_NOTE + ' OpenJDK 17 javac is the judge; batch neighbours come from the same exploration unit.',
+   technique='stateless choice-tree exploration with the real compiler as oracle (alone vs every batch position)'),
  'C06': dict(engine='SSE', category='exploration', design_ref='5 C06',
    text='Type.is_subtype / is_assignable is compared with an independent declarative relation (with capture) on every '
         'ordered pair of well-formed types up to nesting depth 2 over every well-formed class table of a skeleton grammar '
@@ -110,8 +118,10 @@ CHECKS = {
 }
 
 ENGINES = [
- {'name': 'CTE', 'path': 'mc/explore.py', 'serves_properties': ['C11', 'C13', 'C17', 'C18'],
+ {'name': 'CTE', 'path': 'mc/explore.py', 'serves_properties': ['C02', 'C07', 'C11', 'C13', 'C17', 'C18'],
   'kind_free_text': 'stateless deviation-bounded explorer of the choice tree of the real pipeline (ChoiceSource replaces src.utils.random.r)'},
+ {'name': 'javac-server', 'path': 'javasrv/CompileServer.java', 'serves_properties': ['C02', 'C14'],
+  'kind_free_text': 'warm JVM compiling file sets with javax.tools (structured diagnostics) and com.sun.tools.javac.Main (CLI text)'},
  {'name': 'exhaustive-graphs', 'path': 'mc/props/c19.py', 'serves_properties': ['C19'],
   'kind_free_text': 'enumeration of all digraphs up to 4 (5) vertices'},
  {'name': 'SSE', 'path': 'mc/universe.py', 'serves_properties': ['C06', 'C07', 'C09', 'C10'],
